@@ -230,6 +230,14 @@ def _real_sites(d, name):
                 for t in sup:
                     if t != a['kind'][1]:
                         yield [['retype', c['id'], a['id'], t]]
+            elif a['kind'][0] == 'ref':
+                # the own R114 type of a referential attribute: no effect, neither now nor after the base is retyped
+                yield [['retype', c['id'], a['id'], sup[len(a['name']) % len(sup)]]]
+                base = E._find(d['classes'], 'id', a['kind'][1])
+                ba = E._find(base['attrs'], 'id', a['kind'][2]) if base else None
+                if ba is not None and ba['kind'][0] == 'base' and E.py_dt_type(d, ba['kind'][1]):
+                    other = [t for t in sup if t != ba['kind'][1]]
+                    yield [['retype', c['id'], a['id'], ba['kind'][1]], ['retype', base['id'], ba['id'], other[0]]]
         ids = [a['id'] for a in c['attrs']]
         if 2 <= len(ids) <= 4:
             for perm in itertools.permutations(ids):
@@ -248,6 +256,7 @@ def _real_sites(d, name):
                 yield [['mult', r['id'], sel, v]]
                 yield [['cond', r['id'], sel, v]]
             yield [['phrase', r['id'], sel, 'edited %s phrase' % sel]]
+            yield [['phrase', r['id'], sel, '']]
         for p in parents:
             if p != r['parent']:
                 yield [['move-rel', r['id'], p]]
@@ -279,6 +288,8 @@ def generate(ctx):
                     # scripts that leave a relationship of the component without one of its classes are kept:
                     # the build must then raise MetaModelException
                     i += 1
+                    if drv and i % ctx.pick(3, 1):
+                        continue                # quick tier: with derived attributes every third site only
                     yield {'src': 'real', 'model': model, 'comp': name, 'drv': drv, 'edits': edits, 'entry': 'mk',
                            'perm': rng.randint(1, 1 << 30) if i % 3 == 0 else None}
         for j in range(ctx.pick(40, 600)):
@@ -291,7 +302,7 @@ def generate(ctx):
             yield {'src': 'real', 'model': model, 'comp': name, 'drv': False, 'edits': [], 'entry': 'build', 'perm': None}
     # ---- every R_REL row, whatever hangs on it: unformalised simple / linked / subtype relationships, subtype
     #      relationships without subtypes, R_COMP, missing end rows, no or two R206 subtype rows
-    for j in range(ctx.pick(160, 2000)):
+    for j in range(ctx.pick(120, 2000)):
         r = rng.fork('rows', j)
         base = E.gen_diagram(r, max_classes=4)
         ids = iter(range(10 ** 7 + 1000 * j, 10 ** 7 + 1000 * (j + 1)))
@@ -309,7 +320,7 @@ def generate(ctx):
                'audit': j % 3 == 0}
     # ---- two of a kind: a second identifier over the same attributes, classes with the same key letters (also differing
     #      in letter case only) in different components, the same relationship number in different containers
-    for j in range(ctx.pick(90, 1200)):
+    for j in range(ctx.pick(60, 1200)):
         r = rng.fork('twins', j)
         d = E.gen_diagram(r, max_classes=4, twin_idents=(j % 3 != 1), dup_key_letters=(j % 3 != 0),
                           dup_rel_numbers=(j % 2 == 0))
@@ -332,7 +343,7 @@ def generate(ctx):
     # ---- sessions: several builds in ONE process from ONE loaded population (and one loader) - every route on the
     #      untouched model, then builds of different components with either flag, interleaved with edits of the population,
     #      XSD generation from the same population and mutation of the component built last; nothing may be remembered
-    for j in range(ctx.pick(70, 900)):
+    for j in range(ctx.pick(45, 900)):
         r = rng.fork('session', j)
         d = E.gen_diagram(r, max_classes=4, twin_idents=(j % 3 == 0), dup_key_letters=(j % 4 == 1),
                           dup_rel_numbers=(j % 4 == 3))
@@ -366,13 +377,16 @@ def generate(ctx):
         yield {'src': 'synth', 'family': 'session', 'diagram': d, 'comp': nm0, 'drv': drv0, 'edits': [], 'entry': 'session',
                'steps': steps, 'perm': r.randint(1, 1 << 30), 'audit': j % 3 == 0}
     # ---- synthesised diagrams
-    n = ctx.pick(320, 5000)
+    n = ctx.pick(270, 5000)
     for i in range(n):
         r = rng.fork('synth', i)
         d = E.gen_diagram(r, max_classes=ctx.pick(5, 7))
         if i % 3 == 2:
             # NON-EMPTY descriptions on every element kind (--, <, &, quotes, newlines): no part of what is mirrored
             d['descr'] = r.randint(1, 1 << 30)
+        if i % 3 == 1:
+            # referential attributes with a data type of their own across R114 (not same_as<Base_Attribute>)
+            d['ref_types'] = r.randint(1, 1 << 30)
         choices = E.comp_choices(d)
         x = r.random()
         if x < 0.04:
